@@ -466,6 +466,13 @@ class Zeroconf(QuietLogger):
         assert info.server_key is not None
         entries = self.registry.async_get_infos_server(info.server_key)
         broadcast_addresses = not bool(entries)
+        # Answers for this service that are still waiting in the multicast queues
+        # must not go out after the goodbye or peers will re-add the service.
+        withdrawn = [info.dns_pointer(), info.dns_service(), info.dns_text()]
+        if broadcast_addresses:
+            withdrawn.extend(info.get_address_and_nsec_records())
+        self.out_queue.async_remove_answers(withdrawn)
+        self.out_delay_queue.async_remove_answers(withdrawn)
         return asyncio.ensure_future(
             self._async_broadcast_service(info, _UNREGISTER_TIME, 0, broadcast_addresses)
         )
@@ -479,6 +486,9 @@ class Zeroconf(QuietLogger):
         for info in service_infos:
             self._add_broadcast_answer(out, info, 0)
         self.registry.async_remove(service_infos)
+        withdrawn = [answer for answer, _ in out.answers]
+        self.out_queue.async_remove_answers(withdrawn)
+        self.out_delay_queue.async_remove_answers(withdrawn)
         return out
 
     async def async_unregister_all_services(self) -> None:
